@@ -2,16 +2,17 @@
 # selftest_seeds.sh [ids…]: regression test of the checks themselves. For every stored seeded change that still
 # applies to /repo: apply it, run the property's quick check, expect a VIOLATION, undo it. Prints one line per seed.
 # /repo must be clean; it is clean again afterwards.
-cd /verif || exit 2
-git -C /repo diff --quiet || { echo "/repo not clean"; exit 2; }
+R=${VERIF_REPO:-/repo}     # (a background run works on its own copies: VERIF_REPO, and the directory it is started in)
+cd "$(dirname "$0")/.." || exit 2
+git -C $R diff --quiet || { echo "/repo not clean"; exit 2; }
 missed=0; n=0
 for d in ${@:-$(ls seeded)}; do
   dir=seeded/$d; [ -f $dir/patch.diff ] || continue
   P=${d%%_*}
-  if ! git -C /repo apply --check $dir/patch.diff 2>/dev/null; then echo "$d: patch no longer applies (code changed since)"; continue; fi
-  git -C /repo apply $dir/patch.diff
+  if ! git -C $R apply --check $dir/patch.diff 2>/dev/null; then echo "$d: patch no longer applies (code changed since)"; continue; fi
+  git -C $R apply $dir/patch.diff
   out=$(./check $P --tier quick 2>&1); rc=$?
-  git -C /repo checkout -- .; python3 gen/extract.py >/dev/null 2>&1; git checkout -- evidence/$P.json 2>/dev/null
+  git -C $R checkout -- .; python3 gen/extract.py >/dev/null 2>&1; git checkout -- evidence/$P.json 2>/dev/null
   n=$((n+1))
   if echo "$out" | grep -q "^VIOLATION property=$P"; then echo "$d: detected ($(echo "$out" | grep -m1 'violation:' | cut -c20-120))";
   else echo "$d: MISSED (rc=$rc)"; missed=$((missed+1)); fi
